@@ -51,6 +51,11 @@ ALPHA = {
                            "sources": [mgr.P("n", "x"), mgr.P("b"), mgr.P("a")],
                            "extra": [("set", mgr.P("n", "x"), 5), ("set", mgr.P("a"), 3), ("callfun", (mgr.P("a"), mgr.P("n", "x")), (7, 11)),
                                      ("callfun", (mgr.P("n", "y"), mgr.P("a")), (2, 9))]}),
+    # an expression that can only be evaluated while its inputs are consistent with each other (l[a - b] with b = a - 1): a task
+    # that runs once too early raises where the correct order does not
+    "transient": ("W-mix", {"values": (), "templates": ("dec", "dyndiff"), "leaves": [mgr.P("b"), mgr.P("k")],
+                            "sources": [mgr.P("a"), mgr.P("b")],
+                            "extra": [("set", mgr.P("a"), 50), ("set", mgr.P("a"), 7), ("set", mgr.P("b"), 0)]}),
     "nest_full": ("W-nest", {"values": (3, 5), "templates": ("mul2", "add"), "iops": (("add", ("lit", 1)),), "unreg": True,
                              "funs": ("F1",), "knobs": ("K1",)}),
 }
@@ -111,6 +116,9 @@ def histories(alpha, depth):
             try:
                 ns, ex = RM.step(ms, op)
             except RM.ModelError:
+                continue
+            except (IndexError, KeyError, ZeroDivisionError, TypeError, OverflowError):
+                # the definition cannot be evaluated in this state: outside the explored space (configuration independent)
                 continue
             u = bool(ex.assigned is not None and ex.trigger and mgr.order_underdetermined(ns, ex.trigger))
             if ex.raises:
@@ -317,6 +325,31 @@ def job_unusual(_):
                          ("subnormal sum", lambda: s["tiny"] + s["tiny"]), ("subnormal quotient", lambda: s["p"] / 1e120),
                          ("plain python subnormal", lambda: float(repr(1e-200 * 1e-120)))):
         probes.append((label, thunk))
+    # calling conventions: every one-parameter method / function the reference module defines (found in its SOURCE, which both
+    # configurations share) is called BY KEYWORD on a location ref and on an operator expression
+    import ast as ast_
+    import os as os_
+    src = os_.path.join(os_.path.dirname(xdeps.__file__), "refs.py")
+    tree = ast_.parse(open(src).read())
+    oneparam = set()
+    for node in ast_.walk(tree):
+        if isinstance(node, ast_.ClassDef):
+            for fn in node.body:
+                if isinstance(fn, ast_.FunctionDef) and len(fn.args.args) == 2 and fn.args.args[0].arg == "self" \
+                        and not fn.args.vararg and not fn.args.kwarg and not fn.name.startswith("__"):
+                    oneparam.add((fn.name, fn.args.args[1].arg))
+    for mname, pname in sorted(oneparam):
+        for olab in ("item", "expr"):
+            for alab in ("number", "ref"):
+                def thunk(mname=mname, pname=pname, olab=olab, alab=alab):
+                    m2 = xdeps.Manager()
+                    d2 = {"a": 7, "b": 2.5, "c": 0}
+                    s2 = m2.ref(d2, "s")
+                    obj = s2["a"] if olab == "item" else s2["a"] + s2["b"]
+                    arg = 2 if alab == "number" else s2["b"]
+                    res = getattr(obj, mname)(**{pname: arg})
+                    return (type(res).__name__, repr(sorted(d2.items())), sorted(str(k) for k in m2.tasks))
+                probes.append((f"{mname}({pname}=<{alab}>) on {olab}", thunk))
     for label, thunk in probes:
         o = E.outcome(thunk)
         if o[0] == "ok":
@@ -393,7 +426,8 @@ def value_or_plain(v):
 
 # ----------------------------------------------------------------- driver
 def sizes(tier):
-    return {"nest": 3, "mixq": 2, "sib": 5, "diamond": 3} if tier == "quick" else {"nest": 3, "mix": 2, "nest_full": 2, "sib": 6, "diamond": 4}
+    return {"nest": 3, "mixq": 2, "sib": 5, "diamond": 3, "transient": 4} if tier == "quick" else \
+        {"nest": 3, "mix": 2, "nest_full": 2, "sib": 6, "diamond": 4, "transient": 5}
 
 
 def plan(tier, seed):
